@@ -184,9 +184,11 @@ def r6(ctx, prop=P, rule="C14.R6"):
         recv = term_sig(fa.arg_origin(s, 0))
         tested = None
         for o, tr, _ in dominating_conditions(fa, s):
-            sg = term_sig(o)
-            if sg.startswith("Gt(ok(await(len(") and tr is True:
-                tested = sg[len("Gt(ok(await(len("):].rsplit(")))", 1)[0]
+            # canonical `0 < X.len().await?`
+            if isinstance(o, tuple) and o[0] == "bin" and o[1] == "Lt" and tr is True and term_is_lit(o[2], 0):
+                ln = strip(o[3])
+                if ln[0] == "call" and ln[2] == RA_LEN and ln[3]:
+                    tested = term_sig(ln[3][0])
         store = None
         for x in subterms(fa.arg_origin(s, 0)):
             if isinstance(x, tuple) and x[0] == "agg" and x[1].endswith("Store"):
